@@ -3,6 +3,7 @@
 set -e
 cd "$(dirname "$0")"
 export PYTHONPATH=/verif/harness
-/venv/bin/python harness/gen_tables.py /repo >/dev/null
+/venv/bin/python harness/gen_tables.py /repo lean/Gen/Tables.lean >/dev/null
+/venv/bin/python harness/gen_effects.py /repo lean/Gen/Effects.lean >/dev/null
 cd lean
 lake build
